@@ -33,6 +33,16 @@ Theorem C18_all_write_sites_classified : forallb classified write_sites = true.
 Proof. exact Sites_classified. Qed.
 Print Assumptions C18_all_write_sites_classified.
 
+(* 3b. ... and every use of a process-wide object pool anywhere in the repository (inventory
+      regenerated on every run) is one of the classified sites: objects are acquired in newPrinter,
+      handed back in printer.free, and free is called only from the function that makes the last
+      use of the object's buffer. *)
+Theorem C18_all_pool_sites_classified :
+  forallb pool_classified pool_sites = true /\
+  forallb (fun k => existsb (fun s => str_eqb (fst s) (fst (fst k)) && str_eqb (snd s) (snd (fst k))) pool_sites) known_pool_sites = true.
+Proof. split; [exact Pool_sites_classified|exact Pool_sites_complete]. Qed.
+Print Assumptions C18_all_pool_sites_classified.
+
 Theorem C18_build_time_writes_are_package_local :
   forall s p c, In s write_sites -> build_time s = true -> classify s = Some c -> class_region p c = Owned p.
 Proof. exact build_time_writes_owned. Qed.
